@@ -46,9 +46,27 @@ def expectedGuards : List String :=
   ["!multiple && allOutputs && ep==\"\" && len(dep.Outputs())>1", "!dep.IsBinary && runnable",
    "len(dep.Outputs())==0 && runnable", "test && tool"]
 
+/-- The code the model transcribes beyond the guard chain, as canonical skeletons (parameters by position, locals
+    by order of declaration, message texts blanked; compared by SHA-256 prefix, the text itself is in a comment of Generated/C37.lean and
+    Expected/C37.lean): the rest of `checkAndReplaceSequence` (hash, output loop with
+    the tool/abs branch, separator, `break` on dir, `TrimRight`, entry points), `fileDestination`, `handleDir`,
+    `replaceSequenceLabel`, `replaceSequence`, `splitEntryPoint`, `sourcesOrTools`. -/
+def expectedSkeletons : List (String × String) :=
+  [ ("skelCheckTail", "670196609d9b8bd1d59e51f2"),
+    ("skelFileDestination", "8d73b34cfc21f5571f8e4284"),
+    ("skelHandleDir", "ac1e5d5f468350ce2019b35b"),
+    ("skelReplaceSequenceLabel", "734076f9ff401d7ac0c39e69"),
+    ("skelReplaceSequence", "afd5d348adc4b747c8325249"),
+    ("skelSplitEntryPoint", "b5b316dc012cad63fe35eb00"),
+    ("skelSourcesOrTools", "5fbe9d443a4d3f3c2eff30fc") ]
+
+def generatedSkeletons : List (String × String) :=
+  [ ("skelCheckTail", PlzVerif.Generated.C37.skelCheckTail), ("skelFileDestination", PlzVerif.Generated.C37.skelFileDestination), ("skelHandleDir", PlzVerif.Generated.C37.skelHandleDir), ("skelReplaceSequenceLabel", PlzVerif.Generated.C37.skelReplaceSequenceLabel), ("skelReplaceSequence", PlzVerif.Generated.C37.skelReplaceSequence), ("skelSplitEntryPoint", PlzVerif.Generated.C37.skelSplitEntryPoint), ("skelSourcesOrTools", PlzVerif.Generated.C37.skelSourcesOrTools) ]
+
 /-- Side condition on the regenerated facts (decidable): the same nine sequences in any order, offsets that
     skip exactly `$(kw `, double-quote wrappers, every reacting character literal inside double quotes, and
-    all shell operator characters among them, and the guard chain the model transcribes. -/
+    all shell operator characters among them, the guard chain the model transcribes, every pass reading the previous
+    pass's result, and the skeletons of the remaining functions. -/
 def FactsOK : Bool :=
   seqs.length = expectedSeqs.length && expectedSeqs.all (seqs.contains ·) &&
   seqs.all (fun sd => sd.off = sd.kw.length + 3) &&
@@ -58,6 +76,12 @@ def FactsOK : Bool :=
 
 /-- Obligation a code change can break. -/
 theorem C37_facts_ok : FactsOK = true := by decide
+
+/-- Second half of the side condition: every pass reads the previous pass's result, and the remaining functions
+    have the structure the model transcribes. -/
+def SkeletonsOK : Bool := PlzVerif.Generated.C37.passesChained && generatedSkeletons == expectedSkeletons
+
+theorem C37_skeletons_ok : SkeletonsOK = true := by decide
 
 theorem C37_quote_facts_ok : QuoteOK qf := by
   have h := C37_facts_ok
@@ -143,6 +167,32 @@ theorem C37_reject_notexe (root : Str) (self : Bool) (dep : TSpec) (ep inp : Str
     cases allOutputs <;> cases multiple <;> simp_all
   simp [this, hb]
 
+-- non-vacuity of the rejection theorems: a target //p:t with one source file and one dependency //lib:d
+def rejT : Target :=
+  ⟨⟨⟨[], ['p'], ['t']⟩, [['o']], false, []⟩, [⟨(cl% "a.txt"), none⟩], [],
+   [⟨⟨[], (cl% "lib"), ['d']⟩, 2, [⟨⟨[], (cl% "lib"), ['d']⟩, [['x']], false, []⟩]⟩]⟩
+
+example : looksLikeLabel (cl% "//other:thing") = true ∧
+    tryParseLabel (splitEntryPoint (cl% "//other:thing")).1 rejT.spec.label.pkg rejT.spec.label.sub = some ⟨[], (cl% "other"), (cl% "thing")⟩ ∧
+    (⟨[], (cl% "other"), (cl% "thing")⟩ : Label) ≠ rejT.spec.label ∧ rejT.dependenciesFor ⟨[], (cl% "other"), (cl% "thing")⟩ = [] := by decide
+example : replaceSequence qf [] rejT (cl% "//other:thing") false false false false false false = .error .nodep := by decide
+example : looksLikeLabel (cl% "//a:b:c") = true ∧
+    tryParseLabel (splitEntryPoint (cl% "//a:b:c")).1 rejT.spec.label.pkg rejT.spec.label.sub = none := by decide
+example : replaceSequence qf [] rejT (cl% "//a:b:c") false false false false false false = .error .badlabel := by decide
+-- $(exe //lib:d) on a non-binary
+example : replaceSequence qf [] rejT (cl% "//lib:d") true false false false false false = .error .notexe := by decide
+-- C37_exists_file: a.txt is a source of rejT
+example : looksLikeLabel (cl% "a.txt") = false ∧ (⟨(cl% "a.txt"), none⟩ : Input) ∈ rejT.srcs ∧
+    (∀ i ∈ rejT.srcs, i.label.isSome → i.str ≠ (cl% "a.txt")) ∧ hasPrefix (cl% "a.txt") ['/'] = false := by
+  refine ⟨by decide, by simp [rejT], ?_, by decide⟩
+  intro i hi hs
+  simp only [rejT, List.mem_singleton] at hi
+  subst hi
+  simp at hs
+example : replaceSequence qf [] rejT (cl% "a.txt") false false false false false false = .ok (cl% "p/a.txt") := by decide
+-- C37_command_reject_nondep: the whole command `$(location //other:thing)`
+example : replaceSequences seqs qf [] rejT false (seqText kwLocation (cl% "//other:thing")) = .error .nodep := by decide
+
 example : checkAndReplace qf [] false ⟨⟨[], ['p'], ['d']⟩, [['a'], ['b']], false, []⟩ [] ['/','/','p',':','d']
     false false false false false false true false = .error .multi := by decide
 
@@ -181,6 +231,23 @@ def buildInput (t : Target) (label : Label) (d : DepDecl) : Prop :=
   d ∈ t.deps ∧ d.declared = label ∧
   ((∃ i ∈ t.srcs, i.label = some label) ∨ (d.sourceOnly = false ∧ d.isData = false))
 
+/-- Every output of a build-input dependency is linked into the build directory under its package. -/
+theorem C37_outs_linked (t : Target) (label : Label) (d : DepDecl) (dep : TSpec) (rest : List TSpec)
+    (hfind : t.deps.find? (fun x => x.declared = label) = some d) (hdeps : d.deps = dep :: rest)
+    (hin : buildInput t label d) (htool : t.isTool dep.label = false)
+    (houts : ∀ o ∈ dep.outs, o ≠ [] ∧ hasPrefix o ['/'] = false) :
+    ∀ o ∈ dep.outs, pathJoin [dep.label.pkg, o] ∈ t.tmpPaths := by
+  intro out ho
+  have hmem := fileDestination_mem_paths dep out ho (houts out ho).1 (houts out ho).2
+  have e : fileDestination false dep out false false false = pathJoin [dep.label.pkg, out] := by
+    simp [fileDestination, handleDir]
+  rw [e] at hmem
+  have hdf : t.dependenciesFor label = dep :: rest := by simp [Target.dependenciesFor, hfind, hdeps]
+  obtain ⟨hd, _, hor⟩ := hin
+  rcases hor with ⟨i, hi, hl⟩ | ⟨hs, hdata⟩
+  · exact mem_tmpPaths_of_src hi hl (by rw [hdf]; simp) hmem
+  · exact mem_tmpPaths_of_dep hd hs hdata (by rw [hdeps]; simp) htool hmem
+
 /-- **Exists, labels.**  In a build command, for a label that `dependenciesFor` resolves through a
     declaration that is a build input and not a tool, every path a non-`out_`, non-`dir` sequence expands to
     is one `prepareSources` links into the build directory. -/
@@ -193,21 +260,67 @@ theorem C37_exists_label (root : Str) (t : Target) (label : Label) (d : DepDecl)
   intro p hp
   simp only [seqPaths, Bool.false_eq_true, ↓reduceIte, List.mem_map, List.mem_filter] at hp
   obtain ⟨out, ⟨ho, _⟩, rfl⟩ := hp
-  have hmem := fileDestination_mem_paths dep out ho (houts out ho).1 (houts out ho).2
-  have hdf : t.dependenciesFor label = dep :: rest := by simp [Target.dependenciesFor, hfind, hdeps]
-  obtain ⟨hd, _, hor⟩ := hin
-  rcases hor with ⟨i, hi, hl⟩ | ⟨hs, hdata⟩
-  · exact mem_tmpPaths_of_src hi hl (by rw [hdf]; simp) hmem
-  · exact mem_tmpPaths_of_dep hd hs hdata (by rw [hdeps]; simp) htool hmem
+  have := C37_outs_linked t label d dep rest hfind hdeps hin htool houts out ho
+  simpa [fileDestination, handleDir] using this
 
-/-- **Exists, `dir`.**  `$(dir //x:y)` names the package directory, which contains a linked output whenever
-    there is one. -/
-theorem C37_exists_dir (root : Str) (dep : TSpec) (inp : Str) (allOutputs : Bool) :
-    ∀ p ∈ seqPaths root false dep inp true false false allOutputs false, p = dep.label.pkg := by
+/-- **Exists, `dir`.**  `$(dir //x:y)` expands to the package directory of the dependency, and that directory
+    is where every output of the dependency is linked (`pkg/out` for each `out`). -/
+theorem C37_exists_dir (root : Str) (t : Target) (label : Label) (d : DepDecl) (dep : TSpec) (rest : List TSpec)
+    (inp : Str) (allOutputs : Bool)
+    (hfind : t.deps.find? (fun x => x.declared = label) = some d) (hdeps : d.deps = dep :: rest)
+    (hin : buildInput t label d) (htool : t.isTool dep.label = false)
+    (houts : ∀ o ∈ dep.outs, o ≠ [] ∧ hasPrefix o ['/'] = false) :
+    ∀ p ∈ seqPaths root false dep inp true false false allOutputs false,
+      p = dep.label.pkg ∧ ∀ o ∈ dep.outs, pathJoin [p, o] ∈ t.tmpPaths := by
   intro p hp
   simp only [seqPaths, ↓reduceIte, List.mem_map] at hp
   obtain ⟨out, _, rfl⟩ := hp
-  simp [fileDestination, handleDir]
+  have e : fileDestination false dep out true false false = dep.label.pkg := by simp [fileDestination, handleDir]
+  rw [e]
+  exact ⟨rfl, C37_outs_linked t label d dep rest hfind hdeps hin htool houts⟩
+
+/-- **End to end, one sequence.**  `$(locations L)` for a label `L` (no entry point) that parses, is not the
+    target itself, resolves through a build-input declaration and is not a tool: `replaceSequence` — label
+    parsing, dependency lookup, the guards, the output loop, quoting — yields the rendering of exactly the
+    dependency's outputs under its package; each of those paths is linked into the build directory; and, when
+    the paths are good, the shell hands the command exactly those paths, one word each. -/
+theorem C37_locations_end_to_end (root : Str) (t : Target) (inp : Str) (label : Label) (d : DepDecl) (dep : TSpec)
+    (rest : List TSpec)
+    (hl : looksLikeLabel inp = true) (hnoep : splitEntryPoint inp = (inp, []))
+    (hparse : tryParseLabel inp t.spec.label.pkg t.spec.label.sub = some label) (hself : label ≠ t.spec.label)
+    (hfind : t.deps.find? (fun x => x.declared = label) = some d) (hdeps : d.deps = dep :: rest)
+    (hin : buildInput t label d) (htool : t.isTool dep.label = false) (htool' : t.isTool label = false)
+    (houts : ∀ o ∈ dep.outs, o ≠ [] ∧ hasPrefix o ['/'] = false) :
+    replaceSequence qf root t inp false true false false false false
+        = .ok (render qf (dep.outs.map fun o => pathJoin [dep.label.pkg, o]))
+    ∧ (∀ p ∈ dep.outs.map (fun o => pathJoin [dep.label.pkg, o]), p ∈ t.tmpPaths)
+    ∧ ((∀ o ∈ dep.outs, goodPath qf (pathJoin [dep.label.pkg, o]) = true) →
+        shellWords (render qf (dep.outs.map fun o => pathJoin [dep.label.pkg, o]))
+          = some (dep.outs.map fun o => pathJoin [dep.label.pkg, o])) := by
+  have hdf : t.dependenciesFor label = dep :: rest := by simp [Target.dependenciesFor, hfind, hdeps]
+  refine ⟨?_, ?_, ?_⟩
+  · unfold replaceSequence
+    simp only [hl, ↓reduceIte, hnoep, hparse, replaceSequenceLabel, hself, hdf, htool']
+    unfold checkAndReplace
+    have hf : dep.outs.filter (fun _ => true) = dep.outs := List.filter_eq_self.mpr (fun _ _ => rfl)
+    simp [seqPaths, fileDestination, handleDir, hf]
+  · intro p hp
+    obtain ⟨o, ho, rfl⟩ := List.mem_map.mp hp
+    exact C37_outs_linked t label d dep rest hfind hdeps hin htool houts o ho
+  · intro hg
+    exact C37_words_partial _ (by
+      intro p hp
+      obtain ⟨o, ho, rfl⟩ := List.mem_map.mp hp
+      exact hg o ho)
+
+/-- **Entry points.**  `$(location L|ep)` (no guard firing) expands to the quoted destination of the output the
+    entry point names; in a build command without `out_` that is `pkg/out`. -/
+theorem C37_entry_point (root : Str) (self : Bool) (dep : TSpec) (ep inp out : Str) (multiple dir : Bool) (tool : Bool)
+    (hne : ep ≠ []) (hfind : dep.eps.find? (fun e => e.1 = ep) = some (ep, out)) :
+    checkAndReplace qf root self dep ep inp false multiple dir false false false true tool
+      = .ok (quote qf (if dir then dep.label.pkg else pathJoin [dep.label.pkg, out])) := by
+  unfold checkAndReplace
+  simp [hne, hfind, fileDestination, handleDir]
 
 /-- **Exists, files.**  In a build command a plain name that is a source file expands to the quoted path
     `prepareSources` links it at. -/
@@ -319,6 +432,25 @@ theorem C37_command_single (root : Str) (t : Target) (test : Bool) (sd : SeqDef)
     (hdr : '$' ∉ r) :
     replaceSequences seqs qf root t test (seqText sd.kw arg) = .ok r :=
   replaceSequences_single_ok seqs C37_seqs_ok qf root t test sd hsd arg ha hp hd r hr hdr
+
+/-- The sequence inside a longer command, `pre ++ $(kw arg) ++ post` with no other `$`: the expansion replaces
+    the sequence in place and the rest of the command is untouched … -/
+theorem C37_command_in_context (root : Str) (t : Target) (test : Bool) (sd : SeqDef) (hsd : sd ∈ seqs)
+    (arg pre post r : Str) (ha : arg ≠ []) (hp : ')' ∉ arg) (hd : '$' ∉ arg) (hpre : '$' ∉ pre) (hpost : '$' ∉ post)
+    (hr : replaceSequence qf root t arg sd.runnable sd.multiple sd.dir sd.outPrefix sd.hash test = .ok r)
+    (hdr : '$' ∉ r) :
+    replaceSequences seqs qf root t test (inCtx pre (seqText sd.kw arg) post) = .ok (inCtx pre r post) :=
+  replaceSequences_ctx_ok seqs C37_seqs_ok qf root t test sd hsd arg pre post ha hp hd hpre hpost r hr hdr
+
+/-- … and a rejected sequence rejects the whole command. -/
+theorem C37_command_in_context_reject (root : Str) (t : Target) (test : Bool) (sd : SeqDef) (hsd : sd ∈ seqs)
+    (arg pre post : Str) (e : Err) (ha : arg ≠ []) (hp : ')' ∉ arg) (hd : '$' ∉ arg) (hpre : '$' ∉ pre) (hpost : '$' ∉ post)
+    (hr : replaceSequence qf root t arg sd.runnable sd.multiple sd.dir sd.outPrefix sd.hash test = .error e) :
+    replaceSequences seqs qf root t test (inCtx pre (seqText sd.kw arg) post) = .error e :=
+  replaceSequences_ctx_err seqs C37_seqs_ok qf root t test sd hsd arg pre post ha hp hd hpre hpost e hr
+
+example : replaceSequences seqs qf [] rejT false (inCtx (cl% "cat ") (seqText kwLocation (cl% "a.txt")) (cl% " > out")) =
+    .ok (cl% "cat p/a.txt > out") := by decide
 
 -- non-vacuity: `$(locations //lib:d)` end to end, and the shell words of the result
 example :
